@@ -335,7 +335,7 @@ def candidate_models(ctx: Ctx, ob: Obligation, n: int):
         g.push()
         g.add(h)
         k = 0
-        while k < 3 and guarded_check(g, ctx.timeout_ms) == z3.sat:
+        while k < (1 if len(ob.hints) > 4 else 3) and guarded_check(g, ctx.timeout_ms) == z3.sat:
             mdl = g.model()
             out.append(extract_model(ctx, mdl, ob.inputs))
             k += 1
